@@ -115,13 +115,19 @@ _POOL_TB = ["queue.Queue: linearizable FIFO with unfinished count; content invar
 meta("C09", explanation="per-task protocol: enqueue puts one tuple under the lock; a worker iteration executes the task once and "
                         "calls task_done once on every path (loop invariant); execute stores the very object; stop/clear run nothing.",
      trusted_base=_POOL_TB, assumptions=["one controlling thread for start/stop", "tasks raise only Exception subclasses"],
-     not_decided=["'is executed once the pool is running' in the sense of eventually (liveness)", "FIFO start order with one worker (follows from the trusted FIFO contract and the single consumer; not a separate obligation)"])
+     not_decided=["'is executed once the pool is running' in the sense of eventually (liveness): only within the bound of the schedule "
+                  "harness (no lost task, no deadlock on the enumerated client programs)",
+                  "FIFO start order with one worker (follows from the trusted FIFO contract and the single consumer; checked by the "
+                  "schedule harness, not a separate obligation)"])
 meta("C10", explanation="constructor clauses (linear integer), lock invariant nb_threads <= max_threads at every release, un-count "
                         "exactly once and atomically with the retire decision, safety core of the growth rule.",
      trusted_base=_POOL_TB, assumptions=["Thread.start failures are counted by the trusted model"],
-     not_decided=["progress of mutually dependent tasks (liveness)", "'at least min_threads workers serve from start() to stop()' beyond start()'s own postcondition"])
+     not_decided=["progress of mutually dependent tasks (liveness): only within the bound of the schedule harness (gate-dependent task "
+                  "pairs terminate on every enumerated schedule)",
+                  "'at least min_threads workers serve from start() to stop()' beyond start()'s own postcondition"])
 meta("C11", explanation="join/clear/stop/start postconditions over the trusted Queue counters.", trusted_base=_POOL_TB,
-     assumptions=[], not_decided=["stop() always returns (termination)", "wall-clock meaning of timeouts"])
+     assumptions=[], not_decided=["stop() always returns (termination): only within the bound of the schedule harness",
+                                  "wall-clock meaning of timeouts (the harness uses virtual time)"])
 meta("C12", explanation="frame clauses of the serving path (handler-only state, server Config never written), one response per "
                         "request, process_request -> exactly one enqueue, server_close order; precondition of BaseServer.shutdown.",
      trusted_base=["socketserver: one handler instance per connection; BaseServer.shutdown requires serve_forever running "
@@ -153,7 +159,7 @@ meta("C16", explanation="EventData/FutureResult contracts; the registration slot
 meta("C17", explanation="framing clauses on send_content/do_POST (ghost wire/out logs), request target, scheme rejection, client "
                         "reassembly (decode once), server read-loop invariant with call-site assertion.",
      trusted_base=["UTF-8 axioms: dec(enc(s)) == s, enc is valid", "urlparse attribute functions", "rfile.read: 1..n bytes or b'' at end"],
-     assumptions=["Content-Length header, when it parses, is non-negative"], not_decided=["gzip decoding (stdlib)", "CGI handler (bounded only)"])
+     assumptions=["Content-Length header, when it parses, is non-negative"], not_decided=["gzip decoding (stdlib; exercised by the framing harness only)"])
 meta("C18", explanation="push/pop, restoration on both exits, protected names, fixed headers first; recency by exhaustive "
                         "enumeration (bounded).",
      trusted_base=["contextlib.contextmanager: the body's exception is raised at the yield"],
